@@ -255,6 +255,12 @@ func init() {
 		return Scalar(msg)
 	})
 
+	regDep("bytes.Equal", nil, "bytes.Equal(a, b) == (contents equal)", func(ex *Exec, st *State, c *ssa.Call, a []SV) SV {
+		return Scalar(ex.define(st, "byteseq", Eq(ex.sliceBytes(st, a[0]), ex.sliceBytes(st, a[1]))))
+	})
+	regDep("errors.Is", nil, "errors.Is(err, target) = is(err, target): reflexive; identity for errors.New / Errorf-without-%w values", func(ex *Exec, st *State, c *ssa.Call, a []SV) SV {
+		return Scalar(ex.define(st, "erris", App(SBool, "f_is", a[0].T, a[1].T)))
+	})
 	// pbkdf2
 	regDep("golang.org/x/crypto/pbkdf2.Key", []string{"BMem", "next"}, "pbkdf2.Key(pw, salt, iter, keyLen, h): fresh slice of keyLen bytes = PBKDF2-HMAC-h(pw, salt, iter, keyLen) (uninterpreted; h identified by the constructor passed); pw, salt not modified", func(ex *Exec, st *State, c *ssa.Call, a []SV) SV {
 		hk := IntLit(0)
